@@ -76,10 +76,10 @@ structure State where
   deriving DecidableEq, Repr, Inhabited
 
 /-- Actions on one file. Protocol: `sendPart allAcked validate release poll`.
-Faults: `loseAck dropPart corrupt pollError`. -/
+Faults: `loseAck dropPart corrupt pollError earlyAcked`. -/
 inductive FAct where
   | sendPart | allAcked | validate | release | poll
-  | loseAck | dropPart | corrupt | pollError
+  | loseAck | dropPart | corrupt | pollError | earlyAcked
   deriving DecidableEq, Repr, Inhabited
 
 inductive Action where
@@ -92,6 +92,7 @@ inductive Action where
   | dropPart (i : Nat)
   | corrupt (i : Nat)
   | pollError (i : Nat)
+  | earlyAcked (i : Nat)
   | crashSender
   | crashReceiver
   deriving DecidableEq, Repr, Inhabited
@@ -116,6 +117,7 @@ def Action.target : Action → Option (Nat × FAct)
   | .dropPart i => some (i, .dropPart)
   | .corrupt i => some (i, .corrupt)
   | .pollError i => some (i, .pollError)
+  | .earlyAcked i => some (i, .earlyAcked)
   | .crashSender => none
   | .crashReceiver => none
 
@@ -236,6 +238,16 @@ def fileStep (A : Nat) (pd : Bool) (f : FileSt) : FAct → Option FileSt
   | .pollError =>
     match f.sp with
     | .polling _ | .repoll => some f
+    | _ => none
+  /- The tracker counts bytes of a version twice (known finding `C08-requeued-same-version`: the
+     progress entry is keyed by name and reset only when the hash differs) and so reaches
+     `sent >= size` although the receiver does not hold every part: the file is logged as sent and
+     polled early. The poll then answers "not found" until `PollAttempts` is reached and the file
+     is sent again whole. Observed in the live runs once in many thousand; charged to the fault
+     budget like the other deviations. -/
+  | .earlyAcked =>
+    match f.sp with
+    | .pending a => if a < f.nparts then some { f with sp := .polling 0 } else none
     | _ => none
 
 /-- Restart of the sender (client.go recover): a file that is not done and of which the
